@@ -11,11 +11,16 @@ def main():
     from pyvc.verify import verify_contract
     import contracts
     reg = contracts.load(Registry())
-    ids = sys.argv[1:] or list(reg.by_id)
+    args = sys.argv[1:]
+    refute = None
+    if args and args[0].startswith("--refute"):
+        refute = {"bound": int(args[0].split("=")[1]) if "=" in args[0] else 2}
+        args = args[1:]
+    ids = args or list(reg.by_id)
     for cid in ids:
         c = reg.by_id[cid]
         t0 = time.time()
-        out = verify_contract(c, reg)
+        out = verify_contract(c, reg, refute=refute)
         print("== %s  paths=%d  wall=%.1fs solver=%.1fs outcomes=%s" % (cid, out["paths"], time.time() - t0, out["solver_ms"] / 1000, out["outcomes"]))
         for r in out["results"]:
             print("   %-12s %-50s x%d %7.0fms %s" % (r["status"], r["name"], r["instances"], r["ms"], (json.dumps(r["model"])[:300] if r["status"] == "refuted" and r["kind"] == "obligation" else "")))
